@@ -238,6 +238,8 @@ class Contract:
         prune_timeout_ms=None,
         tier="quick",
         prefer=None,
+        timeout_ms=None,
+        witness_inputs=None,
     ):
         self.id = cid
         self.target = target
@@ -270,6 +272,8 @@ class Contract:
         self.prune_timeout_ms = prune_timeout_ms
         self.tier = tier  # 'thorough': only explored in the thorough tier
         self.prefer = prefer  # solver tried first for this contract's obligations
+        self.witness_inputs = witness_inputs  # candidate input valuations tried when the solver answers unknown
+        self.timeout_ms = timeout_ms  # per-obligation solver budget (lower bound) for this contract
 
 
 class Lemma:
